@@ -46,49 +46,46 @@ func FlateCanary() (err error) {
 	open := func(enc []byte) (io.ReadCloser, error) {
 		return pdf.FilterFlate{}.Decode(pdf.V1_7, bytes.NewReader(enc), membudget.New(1<<30))
 	}
-	ra, err := open(canaryEncA)
-	if err != nil {
-		return err
+	// four streams at once, so that a reader that sits in the pool twice is
+	// handed out twice whatever else the pool holds
+	want := [][]byte{canaryA, canaryB, canaryA, canaryB}
+	encs := [][]byte{canaryEncA, canaryEncB, canaryEncA, canaryEncB}
+	var rcs []io.ReadCloser
+	defer func() {
+		for _, rc := range rcs {
+			rc.Close()
+		}
+	}()
+	for _, enc := range encs {
+		rc, err := open(enc)
+		if err != nil {
+			return err
+		}
+		rcs = append(rcs, rc)
 	}
-	defer ra.Close()
-	rb, err := open(canaryEncB)
-	if err != nil {
-		return err
-	}
-	defer rb.Close()
-	var ga, gb []byte
-	bufA, bufB := make([]byte, 777), make([]byte, 1301)
-	doneA, doneB := false, false
-	for !doneA || !doneB {
-		if !doneA {
-			n, err := ra.Read(bufA)
-			ga = append(ga, bufA[:n]...)
-			if err != nil {
-				doneA = true
-				if err != io.EOF {
-					return fmt.Errorf("stream A: %v", err)
+	got := make([][]byte, len(rcs))
+	done := make([]bool, len(rcs))
+	bufs := [][]byte{make([]byte, 777), make([]byte, 1301), make([]byte, 500), make([]byte, 2048)}
+	for left := len(rcs); left > 0; {
+		for i, rc := range rcs {
+			if done[i] {
+				continue
+			}
+			n, err := rc.Read(bufs[i])
+			got[i] = append(got[i], bufs[i][:n]...)
+			if err != nil || len(got[i]) > 2*len(want[i]) {
+				done[i] = true
+				left--
+				if err != nil && err != io.EOF {
+					return fmt.Errorf("stream %d: %v", i, err)
 				}
 			}
 		}
-		if !doneB {
-			n, err := rb.Read(bufB)
-			gb = append(gb, bufB[:n]...)
-			if err != nil {
-				doneB = true
-				if err != io.EOF {
-					return fmt.Errorf("stream B: %v", err)
-				}
-			}
-		}
-		if len(ga) > 2*len(canaryA) || len(gb) > 2*len(canaryB) {
-			break
-		}
 	}
-	if !bytes.Equal(ga, canaryA) {
-		return fmt.Errorf("stream A decoded to %d bytes that are not its own data (%d expected)", len(ga), len(canaryA))
-	}
-	if !bytes.Equal(gb, canaryB) {
-		return fmt.Errorf("stream B decoded to %d bytes that are not its own data (%d expected)", len(gb), len(canaryB))
+	for i := range want {
+		if !bytes.Equal(got[i], want[i]) {
+			return fmt.Errorf("stream %d decoded to %d bytes that are not its own data (%d expected)", i, len(got[i]), len(want[i]))
+		}
 	}
 	return nil
 }
